@@ -1093,8 +1093,13 @@ func (e *env) recorderFor(nat *ref, tmplAddr string, n int, hold bool) (*recSetu
 				where = nm[0]
 			}
 		}
-		if where == "" || strings.HasSuffix(where, "/") || !strings.HasPrefix(filepath.Clean(where), e.tmp+"/") {
-			// no path in the address: nothing to listen on
+		dirOK := false
+		if where != "" {
+			st, err := os.Stat(filepath.Dir(filepath.Clean(where)))
+			dirOK = err == nil && st.IsDir()
+		}
+		if where == "" || strings.HasSuffix(where, "/") || !strings.HasPrefix(filepath.Clean(where), e.tmp+"/") || !dirOK {
+			// no path in the address (or a damaged one that points into a directory that does not exist): nothing to listen on
 			rs.rec = &recorder{C: make(chan flight, 1)}
 			break
 		}
